@@ -16,6 +16,12 @@ Open Scope Qc_scope."""
 ASSUMPTIONS = [
     "binary64 arithmetic of the implementation is exact on the generated dyadic inputs (checked by recomputation with Fractions in the oracle); rounded quotients are compared within k*2^-53 relative",
     "split_horizontal/vertical default: a negative cut coordinate means 'halve' (modelled as written)",
+    "translation tie (second tie, harness/translate_rect.py + harness/gen/RectGenOk.v.in): private helpers of the class are "
+    "translated on demand and inlined, the equality proofs case-split every comparison and close the cases by arithmetic, so "
+    "behaviour-preserving rewrites still check.  Rule: if the current source uses a construct the translator cannot express "
+    "(TranslationError) this is NOT a violation by itself - the evidence records 'translator: skipped (<reason>)', the "
+    "correspondence budget of the run is tripled, and a violation is reported only if the correspondence or the oracle fails; "
+    "a definition that was translated but is no longer proved equal to the model is reported (after the search for a failing input)",
     "object histories (op 'hist'): a pool of real Rectangle objects; between ALL the compared methods the objects are written "
     "in place (r.center.x = v, r.center.y += d, r.shape.w = v, r.shape.h = v), through the centre / shape setters and through "
     "the fixed / hard / region setters; rectangles returned by split_*, split, __mul__ and rectangle_grid join the pool and are "
@@ -780,19 +786,37 @@ def failure_key(case, why):
 
 def translation_tie(ctx, out, pid="C18"):
     """Second tie to the source: re-translate the pure Rectangle methods from the repository's current
-    geometry.py into Gallina (harness/translate_rect.py, fail-closed) and let Coq prove each generated
-    definition equal to the hand-written model function (harness/gen/RectGenOk.v.in)."""
+    geometry.py into Gallina (harness/translate_rect.py, fail-closed; private helpers of the class are
+    translated on demand and inlined) and let Coq prove each generated definition equal to the
+    hand-written model function (harness/gen/RectGenOk.v.in; the scripts case-split every comparison and
+    close the cases by arithmetic, so a behaviour-preserving rewrite of a method still checks).
+
+    Rule (the differential correspondence is the tie of record):
+      * the source uses a construct the translator cannot express (TranslationError): NOT a violation by
+        itself - the evidence records `translator: skipped (<reason>)`, the caller triples the
+        correspondence budget of this run, and a violation is reported only if the correspondence or the
+        oracle fails;
+      * a definition that WAS translated but is no longer proved equal to the model is a disagreement
+        (a violation, after the usual search for a failing input).
+    Returns "proved", "skipped" or "failed"."""
     import shutil
     import subprocess
     from harness import translate_rect as tr
     d = ctx.work / "gen"
     d.mkdir(exist_ok=True)
-    res = {"methods": tr.METHODS, "translated": False, "proved_equal": False}
+    res = {"methods": tr.METHODS, "translated": False, "proved_equal": False, "translator": "ran"}
     try:
         text = tr.translate_file(core.REPO / "frame" / "geometry" / "geometry.py")
         (d / "RectGen.v").write_text(text)
         res["translated"] = True
-    except Exception as e:  # TranslationError or a syntax error in the source
+    except tr.TranslationError as e:
+        res["translator"] = f"skipped ({e})"
+        res["rule"] = ("the current source is outside the translator's subset: the translation tie is not applied in this run, "
+                       "the correspondence budget is tripled and decides alone")
+        out.extra["translation_tie"] = res
+        ctx.notes.append(f"{pid}: translator: skipped ({e}); correspondence budget tripled")
+        return "skipped"
+    except Exception as e:  # e.g. a syntax error in the source
         res["error"] = f"{type(e).__name__}: {e}"
     if res["translated"]:
         shutil.copy(core.VERIF / "harness" / "gen" / "RectGenOk.v.in", d / "RectGenOk.v")
@@ -813,14 +837,16 @@ def translation_tie(ctx, out, pid="C18"):
     if not res["proved_equal"]:
         out.disagreements.append({
             "key": f"{pid}/translation-tie", "explained": False,
-            "why": "the Rectangle methods re-translated from the current source are no longer proved equal to the model "
-                   "(or could not be translated): " + res.get("error", "")[:1500],
+            "why": "the Rectangle methods re-translated from the current source are no longer proved equal to the model: "
+                   + res.get("error", "")[:1500],
             "case": {"file": "frame/geometry/geometry.py", "lemmas": "harness/gen/RectGenOk.v.in"}})
+        return "failed"
+    return "proved"
 
 
 def run(ctx, out, replay=None):
-    translation_tie(ctx, out)
-    n = 3000 if ctx.quick() else 60000
+    mult = 3 if translation_tie(ctx, out) == "skipped" else 1
+    n = (3000 if ctx.quick() else 60000) * mult
     out.rule = ("random Rectangle method calls on lattice/dyadic rectangles; pairs drawn by relative configuration "
                 "(identical, edge, corner, nested, crossing, sliver, far); distinct by canonical hash of the case; "
                 "non-trivial = every case (each exercises one modelled method with an outcome that depends on the geometry).  "
@@ -836,7 +862,7 @@ def run(ctx, out, replay=None):
         cases.append(c)
     while len(cases) < n:
         cases.append(gen_case(ctx.rng))
-    nh = 1200 if ctx.quick() else 20000
+    nh = (1200 if ctx.quick() else 20000) * mult
     hrng = __import__("random").Random(f"C18-hist-{ctx.seed}")
     for _ in range(nh):
         cases.append(gen_hist(hrng))
